@@ -265,7 +265,8 @@ def const_grid():
 
 
 COMPOSE_LAYOUTS = [((0, 8), (8, 32)), ((0, 16), (16, 32)), ((0, 1), (1, 32)), ((0, 8), (8, 16), (16, 32)), ((0, 1), (1, 8), (8, 32)),
-                   ((0, 8), (8, 16)), ((0, 32), (32, 64)), ((0, 8), (8, 16), (16, 64)), ((0, 8), (8, 16), (16, 24), (24, 32))]
+                   ((0, 8), (8, 16)), ((0, 32), (32, 64)), ((0, 8), (8, 16), (16, 64)), ((0, 8), (8, 16), (16, 24), (24, 32)),
+                   ((0, 64), (64, 128)), ((0, 32), (32, 64), (64, 128)), ((0, 32), (32, 64), (64, 96), (96, 128))]      # xmm-sized values
 SLOT_KINDS = ('int', 'cond-sym', 'id-const', 'id-sym', 'cond-const')
 
 
@@ -278,6 +279,8 @@ def compose_cases():
     out = []
     for lay in COMPOSE_LAYOUTS:
         kinds = SLOT_KINDS if len(lay) < 4 else ('int', 'cond-sym', 'id-const')
+        if lay[-1][1] == 128:
+            kinds = ('int', 'id-const', 'id-sym')
         for ks in itertools.product(kinds, repeat=len(lay)):
             out.append((lay, ks))
     return out
@@ -290,7 +293,7 @@ def build_compose(lay, ks, rng):
     args, state = [], {}
     for n, ((a, b), k) in enumerate(zip(lay, ks)):
         w0 = b - a
-        w = min(x for x in (1, 8, 16, 32, 64) if x >= w0)      # odd slot widths are filled with a slice of the next standard width
+        w = min(x for x in (1, 8, 16, 32, 64, 128) if x >= w0)      # odd slot widths are filled with a slice of the next standard width
 
         def const():
             return rng.choice([v for v in exprgen.boundary(w) if v] or [1]) if rng.random() < 0.7 else (rng.getrandbits(w) or 1)
